@@ -9,10 +9,10 @@ import (
 var levels = map[string]string{"C01": "exploration", "C02": "exploration", "C03": "exploration", "C05": "exploration", "C11": "exploration", "C17": "exploration", "C18": "fault_enumeration"}
 
 var rules = map[string]string{
-	"C01": "seeded programs (all control constructs, labels/gotos/calls, 1-4 scripts + inline map scripts; swarm config per run) x seeded game states re-drawn after every command x optimize{off,on} (line markers seeded); one evaluation = one (program, entry, environment, optimize) execution of the emitted image in the VM compared with the reference interpreter. distinct_nontrivial = number of distinct (source hash, entry, reference decision-path hash) triples whose path took >=1 branch decision and performed >=1 command.",
+	"C01": "seeded programs (all control constructs, labels/gotos/calls, poryswitch statements as context, 1-4 scripts + inline map scripts; swarm config per run) x seeded game states re-drawn after every command x optimize{off,on} (line markers seeded); one evaluation = one (program, entry, environment, optimize) execution of the emitted image in the VM compared with the reference interpreter. distinct_nontrivial = number of distinct (source hash, entry, reference decision-path hash) triples whose path took >=1 branch decision and performed >=1 command.",
 	"C02": "seeded boolean expressions (<=8/12 leaves, all leaf forms/operators, minimal + redundant parentheses, negated groups) in if/elif/while/do-while; per program ALL assignments to its atomic flag/trainer/var queries at epoch 0 when the product is within the cap (else that many seeded samples), plus seeded environments. distinct_nontrivial = distinct (source hash, entry, decision-path hash) with >=2 leaf evaluations on the path.",
 	"C03": "seeded switch arrangements (<=8 cases, default anywhere/absent, any empty/non-empty pattern, break anywhere, nested, in loops, first/last); per program EVERY value of every switched var (0..dom+2 plus one unused value, product within the cap) held for the whole run, plus seeded environments. distinct_nontrivial = distinct (source hash, entry, decision-path hash) with >=1 decision and >=1 command.",
-	"C05": "union workload; optimize=false and optimize=true images of the same program executed in lock-step from every entry under the same environments; hosted load-time invariants on both images. distinct_nontrivial = distinct (source hash, entry, decision-path hash of the unoptimized run) with >=1 decision and >=1 command.",
+	"C05": "union workload, every fourth run a full-feature file (poryswitch, const, format, raw, mart, mapscripts) run from every user-visible code label; optimize=false and optimize=true images of the same program executed in lock-step from every entry under the same environments; hosted load-time invariants on both images. distinct_nontrivial = distinct (source hash, entry, decision-path hash of the unoptimized run) with >=1 decision and >=1 command.",
 	"C11": "seeded command configs (var name / argument position); AutoVar leaves mixed with plain leaves at any position and as switch operands, in loops; preamble commands are trace events. distinct_nontrivial = distinct (source hash, entry, decision-path hash) with >=1 decision and >=1 command.",
 	"C17": "seeded histories (5-40 operations over a pool of 4-10 full-feature files x option sets) in one process with seeded map-iteration permutations at every map-range visit and injected aborted / faulted compilations; reference = the same operation alone in a pristine child process; plus statement-independence (clause 2) cases. distinct_nontrivial = distinct (history op-sequence hash, map-order plan hash) with length >=3, >=1 operation repeated after a different one, and >=1 seam visit with >=2 keys under a non-identity permutation.",
 	"C18": "per generated well-formed program: EOF at EVERY token boundary (enumerated), plus seeded token loss/duplication/swap/replacement/insertion, rune insertion, token soup, simulated-disk faults on the font file, environment faults; normal and lint parser; deterministic tick/depth/output budgets. distinct_nontrivial = distinct (input hash, option hash) whose fault was effective (outcome differs from the unfaulted baseline, or the faulted font file was read).",
@@ -54,6 +54,7 @@ func WriteEvidence(path, prop, tier string, seed, runs uint64, workers, distinct
 		"simulated_time_note": "there is no clock in this system; simulated time is reported in steps (VM instructions + reference steps, compiler loop ticks)",
 		"inner_exhaustive":    map[string]int64{"programs": st.InnerPrograms, "assignments": st.InnerAssign},
 		"faults":              st.Faults,
+		"faults_note":         "per kind: configured = planned, fired = actually applied (a disk fault fires only if the file is read; the game-state re-draw fires at every command event), effective = changed the outcome relative to the unfaulted baseline (co-simulation: branch decisions taken after at least one re-draw)",
 		"probes":              st.Probes,
 		"finish_kinds":        st.Finish,
 		"budget_runs":         st.BudgetRuns,
